@@ -12,8 +12,10 @@
                    the root is read entry by entry with `insert` — no tunnel check at the root.
    ser_value_text  crates/toml/src/ser.rs     `impl Serializer for ValueSerializer` (toml::ser::ValueSerializer,
                    the text of a single value): like toml's document Serializer it looks at the ROOT value
-                   itself (struct = serialize_map, so a root Datetime is written as { FIELD = "text" };
-                   a struct variant is refused by name) but does not ask for a table.  A tuple variant at
+                   itself (a struct variant is refused by name) but does not ask for a table.  A struct goes to
+                   toml_edit's ValueSerializer::serialize_struct WITH its name since the repair of
+                   C06-root-datetime-printed-as-table (before: serialize_map, a root Datetime was written as
+                   { FIELD = "text" }).  A tuple variant at
                    the root goes to toml_edit's ValueSerializer::serialize_tuple_variant ({ T = [..] }) since
                    the repair of C13-valueser-root-tuple-variant (before: serialize_seq, a bare array).
 
@@ -46,10 +48,6 @@ Definition to_toml_table (x : tomlval) : result tomlval :=
 
 Definition ser_value_text (t : ty) (v : sval) : result tomlval :=
   match t, v with
-  | TDatetime _, SDt d => Ok (VTab [(DT_FIELD, VStr (display_datetime d))])
-  | TStruct n fs, SRec vs =>
-    rmap (fun ps => VTab (tab_of_pairs (somes_pairs ps)))
-         (zipM (fun ft v' => rmap (optmap (fun x => (fst ft, x))) (ser_map_value ser_value (snd ft) v')) fs vs)
   | TEnum n vs, SVariant i p =>
     pick (fun nv =>
             match snd nv with
